@@ -397,8 +397,16 @@ def checkLts (args res : List String) : Except String (Findings × String) := do
       pure ((Vata.L.fullRel n).filter (fun p => brel.contains (blockOf p.1, blockOf p.2)))
     else pure (Vata.L.fullRel n) : Except String Vata.L.Rel)
   let k := if overload == 2 then n else outSize
-  let ref := Vata.L.ltsSimOut L I k
-  if !Vata.L.isLtsSimB L (Vata.L.ltsSimRef L I) then throw "internal: reference is not a simulation"
+  -- the naive reference needs minutes beyond ~40 states; there the proved engine model is the oracle (`engine_result_eq`:
+  -- its output IS `ltsSimOut` under exactly the preconditions checked above, `engine_total`: it returns)
+  let ref ← (if n ≤ 40 then pure (Vata.L.ltsSimOut L I k) else do
+      let m := (if overload == 0 then
+          match (args[2]? >>= (fun s => (splitC s '/').mapM (fun b => natList? b ','))), (args[3]? >>= parseRel?) with
+          | some blocks, some brel => Vata.LE.computeSimulation L blocks brel outSize
+          | _, _ => none
+        else if overload == 1 then Vata.LE.computeSimulation1 L outSize else Vata.LE.computeSimulation0 L)
+      getE m "engine model returned none on a large system" : Except String Vata.L.Rel)
+  if n ≤ 40 && !Vata.L.isLtsSimB L (Vata.L.ltsSimRef L I) then throw "internal: reference is not a simulation"
   let size ← getE ((kv res "size") >>= String.toNat?) "missing size"
   let rel ← getE ((kv res "rel") >>= parseRel?) "bad rel"
   let mut f : Findings := []
